@@ -1276,6 +1276,15 @@ pub fn configs(prop: SProp, tier: Tier) -> Vec<SCfg> {
         }
         SProp::C06 => {
             let alpha = S_ADVANCE | S_FINISH | S_DRAIN | S_DUP;
+            // several requests expiring together while finished responses wait behind a sink that
+            // was blocked, and a further request arrives
+            for rb in [1usize, 2] {
+                for (f0, f1) in [(false, true), (true, true), (true, false)] {
+                    let mk = |id: u64, d: i64, fin: bool| ReqCfg { deadline_ms: d, ..ReqCfg::simple(id, fin) };
+                    let reqs = vec![mk(0, 10_000, true), mk(1, 1, f0), mk(2, 1, f1), mk(3, 10_000, true)];
+                    out.push(base(reqs, None, rb, Flavour::Coupled, 1, alpha));
+                }
+            }
             let ds: &[i64] = &[-1000, 0, 1, 50, 1000, 700 * 86_400_000];
             for limit in [None, Some(1), Some(2)] {
                 for (fl, cap) in sinks {
